@@ -8,7 +8,8 @@
    wrapper (composites._is_composite, fixes/F23-*.patch).  comp_pre_f9b and comp_pre_f23 are the labelled pre-fix variants. *)
 From Coq Require Import List Bool NArith ZArith.
 Import ListNotations.
-From LCC Require Import Base.Util Model.PyVal Model.Matcher gen.TablesMatchers Model.Describe Proofs.DescribeP.
+From LCC Require Import Base.Util Model.PyVal Model.Matcher gen.TablesMatchers Model.Describe Proofs.DescribeP
+     Model.OpsIn Model.OpsInDescribe Proofs.OpsInDescribeP.
 
 (* No build_description, at any nesting depth, leaves the transformer object it received different from how it found it. *)
 Theorem C17_transformer_preserved : forall (m : matcher) (t : transf), snd (describe_st not_of_source comp_of_source m t) = t.
@@ -220,3 +221,27 @@ Example C17_witness_tokens :
   render (fun _ => true) (FAllN [a; FNotN (FNotN b)]) = DLine [TLit (Lit 0 false); TAnd; TLit (Lit 1 true)] /\
   fexpr_wf (FAllN [a; FNotN (FAllN [FL (Lit 1 false); c])]) = true.
 Proof. repeat split; try reflexivity; discriminate. Qed.
+
+(* ---- the dict operations check_that_in / require_that_in / assert_that_in: the sentence of the check recorded for one
+   (key path, matcher) pair (operations._HasEntry.build_description; Model/OpsInDescribe.v, compared string by string with the
+   sentences a real test records on every run). ---- *)
+
+(* the value matcher is worded exactly as check_that would word it — a fresh transformer, so neither conjugated nor negated,
+   whatever came before — after the key path *)
+Theorem C17_in_description_shape : forall ni cw p m,
+  in_matcher_description ni cw (p, m) = join path_sep (map jsonify p) ++ space ++ describe ni cw m.
+Proof. exact in_description_shape. Qed.
+Print Assumptions C17_in_description_shape.
+
+(* hence two dict checks on the same key path have the same sentence exactly when check_that gives their value matchers the
+   same sentence: faithfulness of the dict operations reduces to that of the plain ones *)
+Theorem C17_in_description_same_path : forall ni cw p m1 m2,
+  in_log_description ni cw (p, m1) = in_log_description ni cw (p, m2) <-> describe ni cw m1 = describe ni cw m2.
+Proof. exact in_log_description_same_path. Qed.
+Print Assumptions C17_in_description_same_path.
+
+(* and the wording of a pair does not depend on its sibling pairs *)
+Theorem C17_in_description_sibling_independent : forall ni cw before after y,
+  nth_error (map (in_log_description ni cw) (before ++ y :: after)) (length before) = Some (in_log_description ni cw y).
+Proof. exact in_description_sibling_independent. Qed.
+Print Assumptions C17_in_description_sibling_independent.
